@@ -22,6 +22,7 @@ type RunReport struct {
 	Rule         string                 `json:"rule"`
 	Samples      []interface{}          `json:"samples"`
 	OracleFails  []string               `json:"oracle_fails"`
+	Known        []string               `json:"known"`
 	CaseFiles    []string               `json:"case_files"`
 	Distribution map[string]interface{} `json:"distribution"`
 	Exhaustive   bool                   `json:"exhaustive"`
@@ -99,6 +100,12 @@ func main() {
 			j := (i*37 + 11) % len(r.pool)
 			rep.Samples = append(rep.Samples, map[string]interface{}{"a": gValue(r.pool[j]), "b": gValue(r.pool[(j+5)%len(r.pool)]), "impl_sign": r.signs[j][(j+5)%len(r.pool)]})
 		}
+	case "c11":
+		rep = runC11(*seed, *n, *out, *backend)
+	case "c16":
+		rep = runC16(*seed, *n, *out)
+	case "c18":
+		rep = runC18(*seed, *n, *out)
 	case "hist":
 		rep = runHistStream(*seed, *n, *out, *backend, *focus, *tier)
 		stream = "hist" + *suffix
